@@ -164,10 +164,11 @@ Proof. cbv zeta. repeat split; try lia. Qed.
    rtamt/semantics/stl/dense_time/offline/ast_visitor.py (and the `def M(a, b)` of offline/intersection.py) by
    tools/py2coq_denseoffline.py on every build (fail-closed).  Every generated function equals the hand function the C04 theorems
    are stated on; a list the generated visitor gen_deval returns is the list deval returns (equality, None included, for formulas
-   without sqrt / ln, whose domain errors the hand model does not contain).  Hand-modelled and pinned by digest: intersection(),
-   _append(), intersects(), the four window loops once/historically/always/eventually_timed_operation (DenseWin.v), visitVariable,
+   without sqrt / ln, whose domain errors the hand model does not contain).  The four window loops once/historically/always/
+   eventually_timed_operation are translated too and equal the hand models of DenseWin.v (C04_generated_windows, DenseOfflineGenWinCorrect.v).
+   Hand-modelled and pinned by digest: intersection(), _append(), intersects() (for intersection() see C04_generated_merge), visitVariable,
    visitConstant, visit, and the dispatchers StlAstVisitor.visit / LtlAstVisitor.visit. *)
-From RV Require Import DenseIA PySem PyDense PyDenseOff DenseOfflineGen DenseOfflineGenCorrect.
+From RV Require Import DenseIA PySem PyDense PyDenseOff DenseOfflineGen DenseOfflineGenWinCorrect DenseOfflineGenCorrect.
 Theorem C04_generated_visitor :
   forall (VS : Val) (AR : Arith VS),
   (forall l r, gen_subtraction_operation AR l r = isect (a2 AR Sub) l r) /\ (forall l r, gen_and_operation AR l r = isect vmin l r) /\
@@ -187,6 +188,8 @@ Theorem C04_generated_visitor :
   (forall s, gen_visitEventually AR s = Some (ev_op s)) /\ (forall s, gen_visitAlways AR s = Some (alw_op s)) /\
   (forall l r, gen_since_operation AR l r = since_op l r) /\ (forall l r, gen_until_operation AR l r = until_op l r) /\
   (forall l r, gen_visitSince AR l r = since_op l r) /\ (forall l r, gen_visitUntil AR l r = until_op l r) /\
+  (forall s b e, gen_once_timed_operation AR s b e = once_timed_op s b e) /\ (forall s b e, gen_historically_timed_operation AR s b e = hist_timed_op s b e) /\
+  (forall s b e, gen_eventually_timed_operation AR s b e = ev_timed_op s b e) /\ (forall s b e, gen_always_timed_operation AR s b e = alw_timed_op s b e) /\
   (forall l r b e, gen_since_timed_operation AR l r b e = since_timed_op l r b e) /\
   (forall l r b e, gen_until_timed_operation AR l r b e = until_timed_op l r b e) /\
   (forall s b e, gen_visitTimedOnce AR s b e = once_timed_op s b e) /\ (forall s b e, gen_visitTimedHistorically AR s b e = hist_timed_op s b e) /\
@@ -197,6 +200,18 @@ Theorem C04_generated_visitor :
    (forall p W, total_arith p = true -> gen_deval AR p W = deval AR p W)).
 Proof. exact @dense_offline_gen_refines. Qed.
 Print Assumptions C04_generated_visitor.
+
+(* the four bounded window loops (two nested `while` loops on fuel and an enumerate loop each) as translated from the Python text:
+   the hand models once_timed_op / hist_timed_op / ev_timed_op / alw_timed_op of C04_visitor, None (IndexError, a stamp +inf where a
+   finite one is stored) included; the fuel the translator allots (1 + len(input), 1 + len(out)) is never exhausted *)
+Theorem C04_generated_windows :
+  forall (VS : Val) (AR : Arith VS),
+  (forall s b e, gen_once_timed_operation AR s b e = once_timed_op s b e) /\
+  (forall s b e, gen_historically_timed_operation AR s b e = hist_timed_op s b e) /\
+  (forall s b e, gen_eventually_timed_operation AR s b e = ev_timed_op s b e) /\
+  (forall s b e, gen_always_timed_operation AR s b e = alw_timed_op s b e).
+Proof. exact @dense_offline_gen_windows. Qed.
+Print Assumptions C04_generated_windows.
 
 (* the generated visitor on the non-vacuity example of C04_visitor: the same list *)
 Example C04_generated_visitor_nonvacuous :
